@@ -792,3 +792,13 @@ func importDiff(a, b []v8x.Extern) string {
 	}
 	return ""
 }
+
+var benchOut io.Writer
+
+func cpuMillis() int {
+	var ru syscall.Rusage
+	if syscall.Getrusage(syscall.RUSAGE_SELF, &ru) != nil {
+		return 0
+	}
+	return int(ru.Utime.Sec*1000+ru.Utime.Usec/1000) + int(ru.Stime.Sec*1000+ru.Stime.Usec/1000)
+}
